@@ -100,7 +100,7 @@ def run_case(case, tier):
     else:
         recs, mode = subset_structure(rng)
     grid = random_grid(rng) if rng.random() < 0.7 else (0.0, 14.0, 0.1)
-    opts = ["-g"] + [repr(v) for v in grid]
+    opts = ["-g"] + [repr(v) for v in grid] + util.neutral_options(rng, families=("display", "protonation", "keep", "swap-display"), classes=classes)
     text = pdbio.dump(recs)
     run = obs.run_single(text, opts, keep_mol=True)
     counts["pipeline_runs"] = 1
